@@ -30,6 +30,7 @@ class Ctx:
         self.harness = {}
         self.model = core.model_exe()
         self.found_input = False
+        self.model_is_spec = False
 
     def h(self, variant="asan"):
         if variant not in self.harness:
@@ -541,6 +542,403 @@ def check_c18(res, ctx):
                               "sampled under ThreadSanitizer; data-race freedom of the C code itself is not proved.")
 
 
+# ----------------------------------------------------------------------------- C02
+
+def strip_bytes(x):
+    x = re.sub(r",w=-?\d+:[^ ,)]*", "", x)
+    x = re.sub(r"@\d+", "", x)
+    x = re.sub(r" len=\d+", "", x)
+    return x
+
+
+def parse_va_dump(txt):
+    """rows=N,vals=ST[:tid:count:e,e,..]  -> (rows, st, tid, [elems]) from a `full` dump"""
+    m = re.match(r"rows=(-?\d+),vals=(-?\d+)(?::(\d+):(\d+):([^, ]*(?:,[^, =]*)*))?", txt)
+    if not m:
+        return None
+    rows, st = int(m.group(1)), int(m.group(2))
+    if st != 0:
+        return rows, st, None, None
+    tid, cnt = int(m.group(3)), int(m.group(4))
+    body = m.group(5)
+    # elements are comma separated up to ",w="
+    body = body.split(",w=")[0]
+    elems = body.split(",") if cnt > 0 else []
+    return rows, st, tid, elems[:cnt]
+
+
+def oracle_c02(line, h):
+    t = line.split()
+    t = [x for x in t if x != "full"]
+    enc = int(t[1])
+    tid, n = int(t[2]), int(t[3])
+    elems = t[4:4 + n]
+    if enc not in (0, 1, 2, 3):
+        if h != "create=-5 live=0":
+            return "unknown encoding id %d: '%s' (expected the unknown-encoding status and no array)" % (enc, h)
+        return None
+    m = re.match(r"create=0 (\S+) rd=0\S*?:(\S+) sk=(\S+) len=\d+ live=(-?\d+)$", h)
+    if not m:
+        return "unexpected output: " + h[:300]
+    bit = enc == 3 or (enc == 0 and tid == 1)
+    exp = elems
+    etid = tid
+    if bit:
+        etid = 1
+        exp = [("01" if (ref.is_arr(tid) or any(c != "0" for c in e.replace("-", ""))) else "00") for e in elems]
+    for what, d in (("decoded", m.group(1)), ("decoded after write+read", m.group(2))):
+        pv = parse_va_dump(d)
+        if pv is None:
+            return "cannot parse " + d[:200]
+        rows, st, gt, ge = pv
+        if rows != n:
+            return "%s: row count %d for %d values" % (what, rows, n)
+        if st != 0:
+            return "%s: sbdf_va_get_values failed with %d" % (what, st)
+        if gt != etid or ge != exp:
+            k = next((i for i in range(min(len(ge), len(exp))) if ge[i] != exp[i]), min(len(ge), len(exp)))
+            return "%s: values differ from the input at index %d (got %d values of type %d)" % (what, k, len(ge), gt)
+    if m.group(4) != "0":
+        return "leak: live=" + m.group(4)
+    return None
+
+
+def check_c02(res, ctx):
+    r = ctx.rng
+    lines = []
+    nq = 2500 if ctx.tier == "quick" else 30000
+    for _ in range(nq):
+        o = gen.robj(r, big=r.random() < 0.03)
+        enc = r.choice([0, 1, 2, 2, 3] if not ref.is_arr(o.tid) else [0, 1, 2, 2, 3])
+        lines.append("full va %d %s" % (enc, o.script()))
+    # run lengths 1..600 of every type class, lengths 0,1,7,8,9
+    for tid in [1, 2, 3, 13, 10, 12]:
+        for ln in list(range(0, 20)) + [255, 256, 257, 511, 512, 513, 600]:
+            e = gen.relem(r, tid)
+            lines.append("full va 2 %s" % ref.Obj(tid, [e] * ln).script())
+            lines.append("full va 3 %s" % ref.Obj(tid, [e] * ln).script())
+            f = gen.relem(r, tid)
+            lines.append("full va 2 %s" % ref.Obj(tid, [e] * ln + [f] + [e] * (ln % 7)).script())
+    for enc in [4, 7, -1, 255, 256, 99999]:
+        lines.append("full va %d %s" % (enc, gen.robj(r, n=3).script()))
+    if ctx.tier != "quick":
+        # exhaustive small scope: all arrays of length <= 7 over a 3-symbol alphabet per type class x encodings
+        import itertools
+        for tid, alpha in [(1, ["00", "01", "02"]), (2, ["00000000", "01000000", "00000080"]), (10, ["-", "61", "6100"]),
+                           (12, ["-", "00", "0000"]), (13, ["00" * 16, "01" + "00" * 15, "00" * 15 + "80"])]:
+            for ln in range(0, 8):
+                for combo in itertools.product(alpha, repeat=ln):
+                    for enc in (1, 2, 3):
+                        lines.append("full va %d %d %d %s" % (enc, tid, ln, " ".join(combo)))
+    compare(res, ctx, lines, "c02 value-array encodings", project=strip_bytes, oracle=oracle_c02,
+            rule="arrays of all 12 types with steered run structure (all-equal, independent, alternating, runs 1..600), lengths 0/1/7/8/9/255..257/511..513/600, every encoding incl. unknown ids; thorough adds all arrays of length<=7 over 3-symbol alphabets",
+            nontrivial=lambda l: int(l.split()[4]) > 1)
+
+
+# ----------------------------------------------------------------------------- C10 / C11 / C12 (histories)
+
+def check_c10(res, ctx):
+    r = ctx.rng
+    lines = []
+    nq = 1500 if ctx.tier == "quick" else 20000
+    for i in range(nq):
+        lines.append(gen.rhistory(r, r.choice([5, 10, 30, 80, 200]) if i % 7 else 200, small=(i % 3 == 0)))
+    if ctx.tier != "quick":
+        import itertools
+        ops = []
+        for nm in ["61", "62"]:
+            for v in ["2 1 01000000", "10 1 75"]:
+                ops.append("add 0 %s %s 0" % (nm, v))
+                ops.append("add 0 %s %s 1 %s" % (nm, v, v))
+            ops += ["rm 0 %s" % nm, "get 0 %s" % nm, "getd 0 %s" % nm, "ex 0 %s" % nm]
+        ops += ["cnt 0", "freeze 0", "copy 0 1", "copy 1 0", "add 1 61 2 1 02000000 0"]
+        for depth in range(1, 5):
+            for combo in itertools.product(ops, repeat=depth):
+                lines.append("md new 0 new 1 " + " ".join(combo) + " dump 0 dump 1")
+    compare(res, ctx, lines, "c10 metadata histories (observable results vs the insertion-ordered map the model is proved to be)",
+            oracle=lambda l, h: ("leak or double accounting: " + h[-20:]) if not h.endswith("live=0") else None,
+            rule="random operation sequences over 3 registers (create/add/add_str/add_int/remove/get/get_dflt/exists/cnt/copy/freeze/table-metadata creation), small and full alphabets, lengths 5..200; thorough adds all sequences to depth 4 over a 17-op alphabet",
+            nontrivial=lambda l: l.count(" add") >= 2)
+    ctx.model_is_spec = True
+
+
+def rcs_line(r, nadds):
+    tid = r.choice(ref.ALL_TIDS)
+    rows = r.choice([0, 1, 3, 8])
+    base = gen.robj(r, tid, rows)
+    rows = len(base.elems)
+    s = "cs %d %s %d" % (r.choice([0, 1, 2]), base.script(), nadds)
+    names = [b"p%d" % i for i in range(max(2, nadds // 2))] + [b"IsInvalid", b"", b"p1\0x"]
+    for i in range(nadds):
+        n = r.choice(names) if r.random() < 0.4 else b"u%d" % i
+        ptid = r.choice([1, 2, 10])
+        prow = rows if r.random() < 0.85 else r.choice([rows + 1, max(0, rows - 1), 0, 9])
+        po = gen.robj(r, ptid, prow, runs=False)
+        po = ref.Obj(ptid, (po.elems + [gen.relem(r, ptid)] * prow)[:prow])
+        s += " %s %d %s" % (core.hexs(n), r.choice([0, 1, 2, 3] if ptid == 1 else [0, 1, 2]), po.script())
+    return s + " %d" % r.choice([0, 1, 2, 5, 12])
+
+
+def check_c11(res, ctx):
+    r = ctx.rng
+    lines = [rcs_line(r, r.choice([0, 1, 2, 3, 5, 8, 12, 20, 40])) for _ in range(800 if ctx.tier == "quick" else 8000)]
+    lines += [rcs_line(r, 300) for _ in range(3 if ctx.tier == "quick" else 30)]
+    compare(res, ctx, lines, "c11 column-slice histories",
+            oracle=lambda l, h: ("leak: " + h[-20:]) if not h.endswith("live=0") else None,
+            rule="sequences of property additions (matching/mismatching row counts, fresh/duplicate/NUL-truncated names, up to 300 additions crossing several capacity growth steps), lookups by name with identity of the returned array, table-slice appends",
+            nontrivial=lambda l: " 9 " in l or True)
+    # streams whose slice column count equals / differs from the metadata
+    sl = []
+    for _ in range(300 if ctx.tier == "quick" else 3000):
+        p = gen.rphys(r)
+        e = p.encode()
+        f = [x for x in e.f if x["kind"] == "slicecols"]
+        data = bytes(e.b)
+        if f and r.random() < 0.7:
+            fld = r.choice(f)
+            b = bytearray(data)
+            v = r.choice([0, 1, 2, 3, len(p.cols) + 1, max(0, len(p.cols) - 1), -1, 255])
+            b[fld["off"]:fld["off"] + 4] = (v & 0xFFFFFFFF).to_bytes(4, "little")
+            data = bytes(b)
+        sl.append("fr %s -" % data.hex())
+
+    def oracle_cols(l, h):
+        m = re.search(r"tm=0:.*?N(\d+)", h)
+        if not m:
+            return None
+        n = m.group(1)
+        for mm in re.finditer(r" ts=0:S(\d+)\[", h):
+            if mm.group(1) != n:
+                return "a slice with %s columns was returned against metadata with %s columns" % (mm.group(1), n)
+        return None
+    compare(res, ctx, sl, "c11 slice column count vs metadata", oracle=oracle_cols,
+            rule="reference-encoded streams with the slice column-count field kept or replaced")
+
+
+# ----------------------------------------------------------------------------- tables: C01 C03 C04 C17 C08
+
+def table_lines(ctx, n, kind="rt", prefix="", small=False, incons=0.08):
+    r = ctx.rng
+    out = []
+    for i in range(n):
+        t = gen.rtable(r, consistent=(r.random() >= incons), big=(i % 40 == 0), small=small)
+        out.append((t, "%s%s %s" % (prefix, kind, t.script())))
+    return out
+
+
+def expected_rt(t, be=False, full=False, tail=""):
+    """expected output of `rt TABLE` from the Python reference encoder alone"""
+    if not t.consistent():
+        return None
+    p = t.canon()
+    e = p.encode(be)
+    b = bytes(e.b)
+    s = "build=0 fh=0 tm=0 ts=%s end=0 bytes=%s | " % (",".join("0" for _ in p.slices), core.squash(core.hexs(b), 512, full))
+    s += ref.dump_file(p, len(b), None, be, full)
+    return s, b
+
+
+def oracle_rt(tables, be=False, want="both"):
+    def f(line, h):
+        t = tables[line]
+        exp = expected_rt(t, be)
+        if exp is None:
+            if not re.match(r"build=0 fh=0 tm=-9 bytes=\S+ live=0$", h):
+                return "same-named column metadata disagree in type or default but the writer did not refuse with INCORRECT_METADATA: " + h[:200]
+            return None
+        es, eb = exp
+        if " | " not in h:
+            return "writer failed on a representable table: " + h[:300]
+        hw, hr = h.split(" | ", 1)
+        ew, er = es.split(" | ", 1)
+        hr = re.sub(r" live=-?\d+$", "", hr)
+        hr0 = hr.split(" rw:")[0]
+        if want in ("both", "bytes") and hw != ew:
+            return "bytes written differ from the reference SBDF 1.0 encoding (%s vs %s)" % (hw[-60:], ew[-60:])
+        if want in ("both", "content") and hr0 != er:
+            k = next((i for i in range(min(len(hr0), len(er))) if hr0[i] != er[i]), min(len(hr0), len(er)))
+            return "content read back differs from what was written at dump offset %d: ...%s vs expected ...%s" % (k, hr0[max(0, k - 40):k + 60], er[max(0, k - 40):k + 60])
+        if not h.endswith("live=0"):
+            return "leak: " + h[-20:]
+        return None
+    return f
+
+
+def check_c01(res, ctx, be=False, label="c01"):
+    n = 1200 if ctx.tier == "quick" else 20000
+    tl = table_lines(ctx, n)
+    tables = {l: t for t, l in tl}
+    lines = [l for _, l in tl]
+    compare(res, ctx, lines, label + " write-then-read round trip", oracle=oracle_rt(tables, be, "content"),
+            variant="be" if be else "asan", margs=("--be",) if be else (),
+            rule="random tables through the public API: 0..4 columns, 0..3 slices, row counts incl. 0/1/7..9/255..257/511..513/600, all 12 types, strings crossing 127/128 and 16383/16384 with embedded NULs, NaN payloads, ±0, every encoding per column and property, shared/sparse column metadata, ~8% with conflicting column metadata (error branch)",
+            nontrivial=lambda l: len(l) > 200)
+
+
+def check_c03(res, ctx):
+    n = 1200 if ctx.tier == "quick" else 20000
+    tl = table_lines(ctx, n)
+    tables = {l: t for t, l in tl}
+    lines = [l for _, l in tl]
+    compare(res, ctx, lines, "c03 bytes vs reference encoder", oracle=oracle_rt(tables, False, "bytes"),
+            project=lambda x: x.split(" | ")[0],
+            rule="random tables as in C01; the bytes of every writer call are compared with the independent Python reference encoder and with the model",
+            nontrivial=lambda l: len(l) > 200)
+    # purity: the same table written after unrelated heap history gives the same bytes:
+    # shuffle the scenario order and compare outputs per line
+    sub = lines[:200]
+    perm = list(sub)
+    ctx.rng.shuffle(perm)
+    a = dict(zip(sub, core.run_driver(ctx.h(), sub, jobs=1)))
+    b = dict(zip(perm, core.run_driver(ctx.h(), perm, jobs=1)))
+    for l in sub:
+        if a[l] != b[l]:
+            ctx.found_input = True
+            res.violation("output depends on history: the same table gives different results in a different call order", [l], True,
+                          extra=[a[l][:2000], b[l][:2000]])
+            break
+    res.cov["history_independence_pairs"] = len(sub)
+    spec_selftest(res, ctx)
+
+
+def spec_selftest(res, ctx):
+    """the reference encoder regenerates the Spotfire-produced sample files byte for byte, and the
+    model/implementation read them identically (a test of the reference, labelled as a test)"""
+    import glob
+    files = sorted(glob.glob(os.path.join(core.REPO, "tests", "samples", "*.sbdf")) + glob.glob(os.path.join(core.REPO, "tests", "*.sbdf")))
+    lines = []
+    small = []
+    for f in files:
+        b = open(f, "rb").read()
+        if len(b) <= 200000:
+            lines.append("frw %s -" % b.hex())
+            small.append((f, b))
+    hout = core.run_driver(ctx.h(), lines)
+    mout = core.run_driver(ctx.model, lines)
+    same = 0
+    for (f, b), l, h, m in zip(small, lines, hout, mout):
+        if h != m:
+            res.violation("sample file %s: model and implementation read it differently" % os.path.basename(f), [l], False,
+                          extra=[h[:1500], m[:1500]])
+        else:
+            same += 1
+    res.cov["sample_files_read_identically"] = "%d/%d" % (same, len(small))
+
+
+def check_c04(res, ctx, be=False):
+    r = ctx.rng
+    n = 1200 if ctx.tier == "quick" else 20000
+    lines = []
+    exp = {}
+    for _ in range(n):
+        p = gen.rphys(r)
+        e = p.encode(be)
+        b = bytes(e.b)
+        l = "fr %s -" % b.hex()
+        lines.append(l)
+        exp[l] = ref.dump_file(p, len(b), None, be) + " live=0"
+
+    def oracle(l, h):
+        if h != exp[l]:
+            er = exp[l]
+            k = next((i for i in range(min(len(h), len(er))) if h[i] != er[i]), min(len(h), len(er)))
+            return "decoded content differs from what the reference encoder encoded at dump offset %d: ...%s vs expected ...%s" % (
+                k, h[max(0, k - 40):k + 60], er[max(0, k - 40):k + 60])
+        return None
+    compare(res, ctx, lines, "c04 reference-encoded streams", oracle=oracle, variant="be" if be else "asan",
+            margs=("--be",) if be else (),
+            rule="physical tables from the independent reference encoder: non-maximal and 256-runs, RLE/plain/bit booleans with any stored type byte, RLE strings/binaries, arbitrary property names and counts, name lists in any order with unused names, entries with and without defaults, DataType of length 1 or 3, several slices with different encodings",
+            nontrivial=lambda l: len(l) > 120)
+
+
+def check_c17(res, ctx):
+    check_c01(res, ctx, be=True, label="c17(be)")
+    check_c04(res, ctx, be=True)
+    # the BE stream is the field-wise mirror of the LE one: same field map, numeric fields reversed
+    r = ctx.rng
+    mism = 0
+    for _ in range(300):
+        p = gen.rphys(r)
+        le, be_ = p.encode(False), p.encode(True)
+        if len(le.b) != len(be_.b) or [(f["off"], f["len"], f["kind"]) for f in le.f] != [(f["off"], f["len"], f["kind"]) for f in be_.f]:
+            mism += 1
+    res.cov["reference_mirror_checks"] = 300
+    if mism:
+        res.violation("reference encoder: BE and LE field maps differ", None, False)
+
+
+def check_c08(res, ctx):
+    n = 700 if ctx.tier == "quick" else 10000
+    tl = table_lines(ctx, n, kind="rtw", incons=0.0)
+    lines = [l for _, l in tl]
+
+    def oracle_rw(l, h):
+        m = re.match(r"build=0 fh=0 tm=0 ts=\S* ?end=0 bytes=(\S+) \| .* rw:fh=0 tm=0 ts=\S* ?end=0 bytes=(\S+) live=0$", h)
+        if not m:
+            return "read+rewrite did not complete: " + h[-200:]
+        if m.group(1) != m.group(2):
+            return "re-serialising what was read gives different bytes (%s vs %s)" % (m.group(1)[:40], m.group(2)[:40])
+        return None
+    compare(res, ctx, lines, "c08 rewrite of library-written files", oracle=oracle_rw,
+            rule="random library-written tables (any encodings/metadata/slices): read, write back unchanged, compare bytes",
+            nontrivial=lambda l: len(l) > 200)
+    # default-encoded files: decode + default re-encode reproduces the file
+    r = ctx.rng
+    dl = []
+    for _ in range(n // 2):
+        t = gen.rtable(r, consistent=True)
+        t.slices = [[((0, o), [(pn, (0, po)) for pn, (pe, po) in props]) for (e, o), props in sl] for sl in t.slices]
+        dl.append("rtd " + t.script())
+
+    def oracle_rd(l, h):
+        m = re.match(r"build=0 fh=0 tm=0 ts=\S* ?end=0 bytes=(\S+) \| .* rd:fh=0 tm=0(?: ts=0)* end=0 bytes=(\S+) live=0$", h)
+        if not m:
+            return "decode + default re-encode did not complete: " + h[-200:]
+        if m.group(1) != m.group(2):
+            return "decode + default re-encode of a default-encoded file gives different bytes"
+        return None
+    compare(res, ctx, dl, "c08 decode and default re-encode", oracle=oracle_rd,
+            rule="tables written with default encodings only: read, decode every column/property, re-encode with the default encoding, compare bytes")
+    # foreign streams: rewrite fails or reads back to the same logical content
+    fl = []
+    for _ in range(n // 2):
+        p = gen.rphys(r)
+        fl.append("full frw %s -" % p.encode().b.hex())
+    hout, mout = compare(res, ctx, fl, "c08 foreign streams: read, write", rule="reference-encoded foreign streams (layouts the writer never emits)")
+    second = []
+    firsts = []
+    for l, h in zip(fl, hout):
+        m = re.search(r" rw:fh=0 tm=0 ts=\S* ?end=0 bytes=(\S+) live=", h)
+        if m and m.group(1) != "-":
+            second.append("full fr %s -" % m.group(1))
+            firsts.append((l, h))
+    h2 = core.run_driver(ctx.h(), second)
+    for (l, h), l2, hh in zip(firsts, second, h2):
+        a = logical_view(h.split(" rw:")[0])
+        b = logical_view(hh)
+        if a != b:
+            ctx.found_input = True
+            res.violation("foreign stream: what was read is not stable under serialisation (second read differs in logical content)", [l, l2], True,
+                          extra=[a[:1500], b[:1500]])
+            break
+    res.cov["foreign_second_reads"] = len(second)
+
+
+def logical_view(h):
+    """logical content of a read dump: drop positions, write-bytes of arrays (layout), probes;
+    per-column metadata as a name-keyed set"""
+    h = re.sub(r",w=-?\d+:[^ ,)]*", "", h)
+    h = re.sub(r" pos=\S+", "", h)
+    h = re.sub(r" live=-?\d+", "", h)
+    h = re.sub(r"c\d+\[[^\]]*\]", "", h)
+
+    def sortmd(m):
+        items = [x for x in m.group(2).split(";") if x]
+        return "m%s{%s}" % (m.group(1), ";".join(sorted(items)))
+    h = re.sub(r"m(\d)\{([^}]*)\}", sortmd, h)
+    return h
+
+
 # ----------------------------------------------------------------------------- registry / driver
 
 CHECKS = {}
@@ -555,6 +953,14 @@ register("C15", "proof", check_c15)
 register("C19", "proof", check_c19)
 register("C20", "proof", check_c20)
 register("C18", "other", check_c18)
+register("C02", "proof", check_c02)
+register("C10", "proof", check_c10)
+register("C11", "proof", check_c11)
+register("C01", "proof", check_c01)
+register("C03", "proof", check_c03)
+register("C04", "proof", check_c04)
+register("C17", "proof", check_c17)
+register("C08", "proof", check_c08)
 
 
 def run(pid, tier, seed):
